@@ -48,9 +48,15 @@ VARIABLES
     hist,    \* user-level history with observations, for replay
     ran,     \* targets whose script was started by the command in flight
     ncmds,
-    pool     \* free job tokens (the token pipe, abstractly)
+    pool,    \* free job tokens (the token pipe, abstractly)
+    gh       \* ghost state for the reference semantics (never read by the actions):
+             \*   gh.cg[n]   content generation of file n: bumped by every user write or
+             \*              removal and by every rebuild -- except a rebuild of a
+             \*              checksummed target that reproduces the same content
+             \*   gh.seen[t] what t's last successful build saw: [built, out, deps, stamped, val]
+             \*   gh.fails   targets whose build failed in the command in flight
 
-vars == <<fs, tmp, clock, w, runid, locks, procs, cmd, hist, ran, ncmds, pool>>
+vars == <<fs, tmp, clock, w, runid, locks, procs, cmd, hist, ran, ncmds, pool, gh>>
 
 NoPid == <<>>
 Top   == <<"c">>
@@ -61,7 +67,10 @@ FileRec(n, k, c, own) == [ex |-> TRUE, val |-> [n |-> n, k |-> k, v |-> c, d |->
                           ver |-> c, own |-> own]
 Absent == [ex |-> FALSE, val |-> NoVal, ver |-> 0, own |-> "none"]
 
+NeverBuilt == [built |-> FALSE, out |-> 0, deps |-> {}, stamped |-> FALSE, val |-> NoVal]
+
 DoVer(df) == fs[df].val.v          \* version of the rule text currently in df
+ReadVal(n) == IF fs[n].ex THEN fs[n].val ELSE NoVal
 
 EnvOf(p)  == [fs |-> fs, rid |-> procs[p].rid, q |-> FALSE]
 
@@ -74,7 +83,8 @@ ProcDefaults ==
      jobs |-> {}, err |-> 0,
      tgt |-> "", unl |-> FALSE, oob |-> FALSE, cyc |-> {},
      t |-> "", df |-> "", dv |-> 0, opi |-> 1, std |-> FALSE, file |-> FALSE,
-     val |-> NoVal, kid |-> NoPid, tok |-> 0]
+     val |-> NoVal, kid |-> NoPid, tok |-> 0,
+     decl |-> {}, stamped |-> FALSE]      \* ghost: what the script declared / whether it ran redo-stamp
 
 Alive(p)   == p \in DOMAIN procs
 
@@ -112,6 +122,11 @@ Init ==
     /\ ran = << >>
     /\ ncmds = 0
     /\ pool = 0
+    /\ gh = [cg |-> [n \in Files |-> 0],
+             seen |-> [n \in Plain |-> NeverBuilt],
+             fails |-> {}]
+
+Bump(n) == [gh EXCEPT !.cg[n] = @ + 1]
 
 Quiet == DOMAIN procs = {} /\ cmd.kind = "idle"
 
@@ -145,12 +160,14 @@ UserWrite(n) ==
     /\ fs' = [fs EXCEPT ![n] = [FileRec(n, "user", Len(hist) + 2, "user") EXCEPT !.ver = clock + 1]]
     /\ hist' = Append(hist, [a |-> "write", n |-> n, v |-> Len(hist) + 2])
     /\ UNCHANGED <<tmp, w, runid, locks, procs, cmd, ran, ncmds, pool>>
+    /\ gh' = Bump(n)
 
 UserRemove(n) ==
     /\ CanAct /\ n \in RmFiles /\ fs[n].ex
     /\ fs' = [fs EXCEPT ![n] = Absent]
     /\ hist' = Append(hist, [a |-> "rm", n |-> n])
     /\ UNCHANGED <<tmp, clock, w, runid, locks, procs, cmd, ran, ncmds, pool>>
+    /\ gh' = Bump(n)
 
 \* next version of the rule text (new content, new stamp)
 DoEdit(df) ==
@@ -160,12 +177,14 @@ DoEdit(df) ==
                                  ver |-> clock + 1, own |-> "user"]]
     /\ hist' = Append(hist, [a |-> "doedit", n |-> df, v |-> DoVer(df) + 1])
     /\ UNCHANGED <<tmp, w, runid, locks, procs, cmd, ran, ncmds, pool>>
+    /\ gh' = Bump(df)
 
 DoRemove(df) ==
     /\ CanAct /\ df \in DoEdits /\ fs[df].ex
     /\ fs' = [fs EXCEPT ![df] = [Absent EXCEPT !.val = fs[df].val]]   \* remember the version
     /\ hist' = Append(hist, [a |-> "rm", n |-> df])
     /\ UNCHANGED <<tmp, clock, w, runid, locks, procs, cmd, ran, ncmds, pool>>
+    /\ gh' = Bump(df)
 
 DoAdd(df) ==
     /\ CanAct /\ df \in DoEdits /\ ~fs[df].ex
@@ -175,6 +194,7 @@ DoAdd(df) ==
                                     ver |-> clock + 1, own |-> "user"]]
        /\ hist' = Append(hist, [a |-> "doadd", n |-> df, v |-> v])
     /\ UNCHANGED <<tmp, w, runid, locks, procs, cmd, ran, ncmds, pool>>
+    /\ gh' = Bump(df)
 
 (***************************************************************************)
 (* Commands                                                                *)
@@ -190,6 +210,7 @@ StartBuild(c) ==
                                            !.forced = (c.kind = "redo"), !.keep = c.keep,
                                            !.targs = c.targs, !.tok = 1])
     /\ pool' = J - 1
+    /\ gh' = [gh EXCEPT !.fails = {}]
     /\ UNCHANGED <<fs, tmp, clock, w, locks, hist>>
 
 EndBuild ==
@@ -199,7 +220,7 @@ EndBuild ==
     /\ cmd' = Idle
     /\ hist' = Append(hist, [a |-> "cmd", kind |-> cmd.kind, targs |-> cmd.targs, keep |-> cmd.keep,
                              rc |-> procs[Top].rc, ran |-> ran, snap |-> Snapshot])
-    /\ UNCHANGED <<fs, tmp, clock, w, runid, locks, ran, ncmds, pool>>
+    /\ UNCHANGED <<fs, tmp, clock, w, runid, locks, ran, ncmds, pool, gh>>
 
 \* redo-ood / redo-targets / redo-sources: read-only, but allocate a run id.
 QueryOut(kind, rid) ==
@@ -222,7 +243,7 @@ Query(c) ==
     /\ runid' = runid + 1
     /\ ncmds' = ncmds + 1
     /\ hist' = Append(hist, [a |-> "query", kind |-> c.kind, out |-> QueryOut(c.kind, runid + 1)])
-    /\ UNCHANGED <<fs, tmp, clock, w, locks, procs, cmd, ran>>
+    /\ UNCHANGED <<fs, tmp, clock, w, locks, procs, cmd, ran, pool, gh>>
 
 (***************************************************************************)
 (* redo processes                                                          *)
@@ -233,7 +254,7 @@ ErrorExit(p, code, w1) ==
     /\ procs' = [procs EXCEPT ![p].pc = "done", ![p].rc = code, ![p].jobs = {}]
     /\ locks' = ReleaseAll(locks, p)
     /\ w' = w1
-    /\ UNCHANGED <<fs, tmp, clock, runid, cmd, hist, ran, ncmds, pool>>
+    /\ UNCHANGED <<fs, tmp, clock, runid, cmd, hist, ran, ncmds, pool, gh>>
 
 \* ifchange.rs:69-97: record parent -> target edges before anything is built
 Declare(p) ==
@@ -241,7 +262,7 @@ Declare(p) ==
     /\ P.kind = "redo" /\ P.pc = "declare"
     /\ IF P.tgt = "" \/ P.unl THEN
           /\ procs' = [procs EXCEPT ![p].pc = "pass1"]
-          /\ UNCHANGED <<fs, tmp, clock, w, runid, locks, cmd, hist, ran, ncmds, pool>>
+          /\ UNCHANGED <<fs, tmp, clock, w, runid, locks, cmd, hist, ran, ncmds, pool, gh>>
        ELSE IF P.tgt \in {P.targs[k] : k \in 1..Len(P.targs)} THEN
           \* add_dep asserts self.id != src.id (state.rs:763)
           ErrorExit(p, 101, w)
@@ -250,11 +271,12 @@ Declare(p) ==
                  IF k = 0 THEN FromName(w, P.tgt) ELSE AddDep(F[k-1], P.tgt, "m", P.targs[k])
           IN /\ w' = F[Len(P.targs)]
              /\ procs' = [procs EXCEPT ![p].pc = "pass1"]
-             /\ UNCHANGED <<fs, tmp, clock, runid, locks, cmd, hist, ran, ncmds, pool>>
+             /\ UNCHANGED <<fs, tmp, clock, runid, locks, cmd, hist, ran, ncmds, pool, gh>>
 
 JobRec(t, k, sf, before, pid) ==
     [t |-> t, k |-> k, sf |-> sf, before |-> before, pid |-> pid, st |-> "run", rv |-> 0,
-     std |-> FALSE, file |-> FALSE, val |-> NoVal]
+     std |-> FALSE, file |-> FALSE, val |-> NoVal, df |-> "",
+     decl |-> {}, stamped |-> FALSE]
 
 \* The decision taken under the lock (or with a forced lock): builder.rs start()
 \* `adv` is the update of the scheduling fields of p (index or queue).
@@ -266,34 +288,37 @@ Decide(p, t, w1, adv) ==
         sb == IF P.forced THEN [v |-> "dirty", need |-> <<>>, w |-> w1, gen |-> TRUE]
               ELSE ShouldBuild(w1, e, t)
         lockIt == IF P.unl THEN locks ELSE [locks EXCEPT ![t] = p]
-        Imm(w2, rv) ==    \* job future already complete; Lock dropped at once; a failure
+        Imm(w2, rv, kind) == \* job future already complete; Lock dropped at once; a failure
                           \* becomes known when the future is polled (ImmDone)
             /\ w' = w2
             /\ procs' = [procs EXCEPT ![p] =
                             IF rv = 0 THEN adv
                             ELSE [adv EXCEPT !.jobs = @ \cup {[JobRec(t, "imm", sf, before, NoPid)
                                                                EXCEPT !.st = "exited", !.rv = rv]}]]
+            /\ gh' = IF rv # 0 THEN [gh EXCEPT !.fails = @ \cup {t}, !.seen[t].built = FALSE]
+                     ELSE IF kind = "static" THEN [gh EXCEPT !.seen[t] = NeverBuilt]   \* now a source
+                     ELSE gh
             /\ UNCHANGED <<fs, tmp, clock, runid, locks, cmd, hist, ran, ncmds, pool>>
     IN
     IF sb.v = "failed" THEN ErrorExit(p, 32, sb.w)
     ELSE IF sb.v = "cycle" THEN ErrorExit(p, 208, sb.w)
-    ELSE IF sb.v = "clean" THEN Imm(sb.w, 0)
+    ELSE IF sb.v = "clean" THEN Imm(sb.w, 0, "clean")
     ELSE IF sb.v = "dirty" \/ P.oob THEN
         LET ss == StartSelf(sb.w, e, t, sf, Cands[t]) IN
         IF ss.k = "panic" THEN ErrorExit(p, 101, sb.w)
-        ELSE IF ss.k \in {"static", "norule"} THEN Imm(ss.w, ss.rv)
+        ELSE IF ss.k \in {"static", "norule"} THEN Imm(ss.w, ss.rv, ss.k)
         ELSE
             LET s == p \o <<t>> IN
             /\ w' = ss.w
             /\ tmp' = tmp \ {t}
             /\ locks' = lockIt
             /\ ran' = Append(ran, t)
-            /\ procs' = Spawn([procs EXCEPT ![p] = [adv EXCEPT !.jobs = @ \cup {JobRec(t, "self", ss.sf, before, s)},
+            /\ procs' = Spawn([procs EXCEPT ![p] = [adv EXCEPT !.jobs = @ \cup {[JobRec(t, "self", ss.sf, before, s) EXCEPT !.df = ss.df]},
                                                                !.tok = 0]],
                               s, [ProcDefaults EXCEPT !.kind = "script", !.par = p, !.pc = "run", !.tok = 1,
                                      !.rid = P.rid, !.keep = P.keep, !.t = t, !.df = ss.df,
                                      !.dv = DoVer(ss.df), !.cyc = P.cyc \cup {t}])
-            /\ UNCHANGED <<fs, clock, runid, cmd, hist, ncmds, pool>>
+            /\ UNCHANGED <<fs, clock, runid, cmd, hist, ncmds, pool, gh>>
     ELSE \* NeedTargets: redo-unlocked t deps...
         LET u == p \o <<t>> IN
         /\ w' = sb.w
@@ -303,7 +328,7 @@ Decide(p, t, w1, adv) ==
                           u, [ProcDefaults EXCEPT !.kind = "unlocked", !.par = p, !.pc = "run", !.tok = 1,
                                  !.rid = P.rid, !.keep = P.keep, !.t = t, !.targs = sb.need,
                                  !.tgt = P.tgt, !.cyc = P.cyc])
-        /\ UNCHANGED <<fs, tmp, clock, runid, cmd, hist, ran, ncmds, pool>>
+        /\ UNCHANGED <<fs, tmp, clock, runid, cmd, hist, ran, ncmds, pool, gh>>
 
 \* pass 1 of builder::run
 Consider(p) ==
@@ -311,26 +336,26 @@ Consider(p) ==
     /\ P.kind = "redo" /\ P.pc = "pass1"
     /\ IF P.i > Len(P.targs) THEN
           /\ procs' = [procs EXCEPT ![p].pc = "pass2"]
-          /\ UNCHANGED <<fs, tmp, clock, w, runid, locks, cmd, hist, ran, ncmds, pool>>
+          /\ UNCHANGED <<fs, tmp, clock, w, runid, locks, cmd, hist, ran, ncmds, pool, gh>>
        ELSE
           LET t   == P.targs[P.i]
               nxt == [P EXCEPT !.i = P.i + 1]
           IN
           IF t \in {P.targs[k] : k \in 1..(P.i - 1)} THEN      \* `seen`
              /\ procs' = [procs EXCEPT ![p] = nxt]
-             /\ UNCHANGED <<fs, tmp, clock, w, runid, locks, cmd, hist, ran, ncmds, pool>>
+             /\ UNCHANGED <<fs, tmp, clock, w, runid, locks, cmd, hist, ran, ncmds, pool, gh>>
           ELSE
              /\ P.tok = 1
              /\ IF P.err # 0 /\ ~P.keep THEN
                    /\ procs' = [procs EXCEPT ![p].pc = "pass2"]
-                   /\ UNCHANGED <<fs, tmp, clock, w, runid, locks, cmd, hist, ran, ncmds, pool>>
+                   /\ UNCHANGED <<fs, tmp, clock, w, runid, locks, cmd, hist, ran, ncmds, pool, gh>>
                 ELSE
                    LET w1 == FromName(w, t) IN
                    IF ~P.unl /\ t \in P.cyc THEN ErrorExit(p, 208, w1)
                    ELSE IF ~P.unl /\ locks[t] # NoPid THEN
                       /\ w' = w1
                       /\ procs' = [procs EXCEPT ![p] = [nxt EXCEPT !.queue = Append(@, t)]]
-                      /\ UNCHANGED <<fs, tmp, clock, runid, locks, cmd, hist, ran, ncmds, pool>>
+                      /\ UNCHANGED <<fs, tmp, clock, runid, locks, cmd, hist, ran, ncmds, pool, gh>>
                    ELSE Decide(p, t, w1, nxt)
 
 \* JobServer::is_running: children not yet reaped
@@ -350,7 +375,7 @@ Pass2(p) ==
        /\ IF t \in P.cyc THEN ErrorExit(p, 208, w)
           ELSE IF IsFailedRow(Load(w, EnvOf(p), t), P.rid) THEN
              /\ procs' = [procs EXCEPT ![p] = [nxt EXCEPT !.err = 2]]
-             /\ UNCHANGED <<fs, tmp, clock, w, runid, locks, cmd, hist, ran, ncmds, pool>>
+             /\ UNCHANGED <<fs, tmp, clock, w, runid, locks, cmd, hist, ran, ncmds, pool, gh>>
           ELSE Decide(p, t, w, nxt)
 
 \* block_on (jobserver.rs:414-460): the child's exit is seen, it is reaped and
@@ -364,11 +389,11 @@ Reap(p, j) ==
     /\ Alive(j.pid) /\ c.pc = "done"
     /\ procs' = Kill([procs EXCEPT ![p].jobs = (@ \ {j}) \cup
                           {[j EXCEPT !.st = "exited", !.rv = c.rc, !.std = c.std, !.file = c.file,
-                                     !.val = c.val]},
+                                     !.val = c.val, !.decl = c.decl, !.stamped = c.stamped]},
                                    ![p].tok = 1],
                      {j.pid})
     /\ pool' = IF P.tok = 1 THEN pool + 1 ELSE pool
-    /\ UNCHANGED <<fs, tmp, clock, w, runid, locks, cmd, hist, ran, ncmds>>
+    /\ UNCHANGED <<fs, tmp, clock, w, runid, locks, cmd, hist, ran, ncmds, gh>>
 
 \* builder.rs:499-584: the file operation of record_new_state
 RecFs(p, j) ==
@@ -385,7 +410,7 @@ RecFs(p, j) ==
        ELSE UNCHANGED <<fs, clock>>
     /\ tmp' = tmp \ {j.t}
     /\ procs' = [procs EXCEPT ![p].jobs = (@ \ {j}) \cup {[j EXCEPT !.st = "fs", !.rv = out.rv]}]
-    /\ UNCHANGED <<w, runid, locks, cmd, hist, ran, ncmds, pool>>
+    /\ UNCHANGED <<w, runid, locks, cmd, hist, ran, ncmds, pool, gh>>
 
 \* builder.rs:585-636 + commit + Lock drop
 RecCommit(p, j) ==
@@ -395,6 +420,19 @@ RecCommit(p, j) ==
     /\ locks' = IF locks[j.t] = p THEN [locks EXCEPT ![j.t] = NoPid] ELSE locks
     /\ procs' = [procs EXCEPT ![p].jobs = @ \ {j},
                               ![p].err = IF j.rv # 0 THEN 1 ELSE @]
+    /\ gh' = IF j.rv # 0
+             THEN [gh EXCEPT !.fails = @ \cup {j.t}, !.seen[j.t].built = FALSE]
+             ELSE LET old  == gh.seen[j.t]
+                      same == j.stamped /\ old.built /\ old.stamped /\ old.val = ReadVal(j.t)
+                      g1   == IF same THEN old.out ELSE gh.cg[j.t] + 1   \* same content: same generation as before
+                      hi   == {Cands[j.t][i] : i \in {i \in 1..Len(Cands[j.t]) :
+                                   \A k \in 1..i : Cands[j.t][k] # j.df}}
+                      deps == {[m |-> d.m, n |-> d.n, g |-> IF d.n = ALWAYS THEN 0 ELSE gh.cg[d.n]] : d \in j.decl}
+                              \cup {[m |-> "m", n |-> j.df, g |-> gh.cg[j.df]]}
+                              \cup {[m |-> "c", n |-> c, g |-> 0] : c \in hi}
+                  IN [gh EXCEPT !.cg[j.t] = g1,
+                                !.seen[j.t] = [built |-> TRUE, out |-> g1, deps |-> deps,
+                                               stamped |-> j.stamped, val |-> ReadVal(j.t)]]
     /\ UNCHANGED <<fs, tmp, clock, runid, cmd, hist, ran, ncmds, pool>>
 
 \* a redo-unlocked job ended: nothing to record, the lock is dropped
@@ -404,7 +442,7 @@ UnlDone(p, j) ==
     /\ locks' = IF j.k = "unl" /\ locks[j.t] = p THEN [locks EXCEPT ![j.t] = NoPid] ELSE locks
     /\ procs' = [procs EXCEPT ![p].jobs = @ \ {j},
                               ![p].err = IF j.rv # 0 THEN 1 ELSE @]
-    /\ UNCHANGED <<fs, tmp, clock, w, runid, cmd, hist, ran, ncmds, pool>>
+    /\ UNCHANGED <<fs, tmp, clock, w, runid, cmd, hist, ran, ncmds, pool, gh>>
 
 \* ensure_token: take a free token from the pool when about to consider a target
 Acquire(p) ==
@@ -414,7 +452,7 @@ Acquire(p) ==
        \/ P.pc = "pass2" /\ P.queue # << >> /\ NoneRunning(P)
     /\ procs' = [procs EXCEPT ![p].tok = 1]
     /\ pool' = pool - 1
-    /\ UNCHANGED <<fs, tmp, clock, w, runid, locks, cmd, hist, ran, ncmds>>
+    /\ UNCHANGED <<fs, tmp, clock, w, runid, locks, cmd, hist, ran, ncmds, gh>>
 
 \* wait_all: give up the own token while jobs are still running
 Release(p) ==
@@ -422,21 +460,19 @@ Release(p) ==
     /\ P.kind = "redo" /\ P.pc = "pass2" /\ P.tok = 1 /\ ~NoneRunning(P)
     /\ procs' = [procs EXCEPT ![p].tok = 0]
     /\ pool' = pool + 1
-    /\ UNCHANGED <<fs, tmp, clock, w, runid, locks, cmd, hist, ran, ncmds>>
+    /\ UNCHANGED <<fs, tmp, clock, w, runid, locks, cmd, hist, ran, ncmds, gh>>
 
 Finish(p) ==
     LET P == procs[p] IN
     /\ P.kind = "redo" /\ P.pc = "pass2" /\ P.jobs = {} /\ P.tok = 1
     /\ P.queue = << >> \/ (P.err # 0 /\ ~P.keep)
     /\ procs' = [procs EXCEPT ![p].pc = "done", ![p].rc = P.err]
-    /\ UNCHANGED <<fs, tmp, clock, w, runid, locks, cmd, hist, ran, ncmds, pool>>
+    /\ UNCHANGED <<fs, tmp, clock, w, runid, locks, cmd, hist, ran, ncmds, pool, gh>>
 
 (***************************************************************************)
 (* .do scripts (sh -e)                                                     *)
 (***************************************************************************)
 OpsOf(S) == Rules[S.df][S.dv][S.t]
-
-ReadVal(n) == IF fs[n].ex THEN fs[n].val ELSE NoVal
 
 SubRedo(S, s, targs, unl, oob, tgt, cyc) ==
     [ProcDefaults EXCEPT !.kind = "redo", !.par = s, !.pc = "declare", !.rid = S.rid,
@@ -448,7 +484,7 @@ ScriptStep(s) ==
     /\ S.kind = "script" /\ S.pc = "run" /\ S.kid = NoPid
     /\ IF S.opi > Len(OpsOf(S)) THEN
           /\ procs' = [procs EXCEPT ![s].pc = "done", ![s].rc = 0]
-          /\ UNCHANGED <<fs, tmp, clock, w, runid, locks, cmd, hist, ran, ncmds, pool>>
+          /\ UNCHANGED <<fs, tmp, clock, w, runid, locks, cmd, hist, ran, ncmds, pool, gh>>
        ELSE
           LET o   == OpsOf(S)[S.opi]
               e   == EnvOf(s)
@@ -459,9 +495,10 @@ ScriptStep(s) ==
           IN
           CASE op = "ifchange" ->
                  LET k == s \o <<ToString(S.opi)>> IN
-                 /\ procs' = Spawn([procs EXCEPT ![s].kid = k, ![s].tok = 0], k,
+                 /\ procs' = Spawn([procs EXCEPT ![s].kid = k, ![s].tok = 0,
+                                      ![s].decl = @ \cup {[m |-> "m", n |-> o.args[i]] : i \in 1..Len(o.args)}], k,
                                    SubRedo(S, s, o.args, FALSE, FALSE, S.t, S.cyc))
-                 /\ UNCHANGED <<fs, tmp, clock, w, runid, locks, cmd, hist, ran, ncmds, pool>>
+                 /\ UNCHANGED <<fs, tmp, clock, w, runid, locks, cmd, hist, ran, ncmds, pool, gh>>
             [] op = "ifcreate" ->
                  \* ifcreate.rs: an existing path is an error before the edge is added
                  LET F[k \in 0..Len(o.args)] ==
@@ -473,16 +510,17 @@ ScriptStep(s) ==
                  IN
                  \* on the error the transaction is dropped: nothing is committed
                  /\ w' = IF r.ok THEN r.w ELSE w
-                 /\ procs' = [procs EXCEPT ![s] = IF r.ok THEN nxt
-                                                  ELSE [S EXCEPT !.pc = "done", !.rc = 1]]
-                 /\ UNCHANGED <<fs, tmp, clock, runid, locks, cmd, hist, ran, ncmds, pool>>
+                 /\ procs' = [procs EXCEPT ![s] =
+                                 IF r.ok THEN [nxt EXCEPT !.decl = @ \cup {[m |-> "c", n |-> o.args[i]] : i \in 1..Len(o.args)}]
+                                 ELSE [S EXCEPT !.pc = "done", !.rc = 1]]
+                 /\ UNCHANGED <<fs, tmp, clock, runid, locks, cmd, hist, ran, ncmds, pool, gh>>
             [] op = "always" ->
                  LET w1 == AddDep(FromName(w, S.t), S.t, "m", ALWAYS)
                      r  == SetChanged([Load(w1, e, ALWAYS) EXCEPT !.stamp = Missing], S.rid)
                  IN
                  /\ w' = Save(w1, ALWAYS, r)
-                 /\ procs' = [procs EXCEPT ![s] = nxt]
-                 /\ UNCHANGED <<fs, tmp, clock, runid, locks, cmd, hist, ran, ncmds, pool>>
+                 /\ procs' = [procs EXCEPT ![s] = [nxt EXCEPT !.decl = @ \cup {[m |-> "m", n |-> ALWAYS]}]]
+                 /\ UNCHANGED <<fs, tmp, clock, runid, locks, cmd, hist, ran, ncmds, pool, gh>>
             [] op = "stamp" ->
                  LET w1 == FromName(w, S.t)
                      r0 == Load(w1, e, S.t)
@@ -491,8 +529,8 @@ ScriptStep(s) ==
                            ELSE SetChecked(r1, S.rid)
                  IN
                  /\ w' = Save(w1, S.t, r2)
-                 /\ procs' = [procs EXCEPT ![s] = nxt]
-                 /\ UNCHANGED <<fs, tmp, clock, runid, locks, cmd, hist, ran, ncmds, pool>>
+                 /\ procs' = [procs EXCEPT ![s] = [nxt EXCEPT !.stamped = TRUE]]
+                 /\ UNCHANGED <<fs, tmp, clock, runid, locks, cmd, hist, ran, ncmds, pool, gh>>
             [] op = "out" ->
                  LET val == [n |-> S.t, k |-> S.df, v |-> S.dv,
                              d |-> [i \in 1..Len(o.args) |-> ReadVal(o.args[i])]]
@@ -505,11 +543,12 @@ ScriptStep(s) ==
                        /\ fs' = [fs EXCEPT ![S.t] = [ex |-> TRUE, val |-> val, ver |-> clock + 1,
                                                      own |-> "script"]]
                        /\ clock' = clock + 1
-                    ELSE UNCHANGED <<fs, clock>>
+                       /\ gh' = Bump(S.t)
+                    ELSE UNCHANGED <<fs, clock, gh>>
                  /\ UNCHANGED <<w, runid, locks, cmd, hist, ran, ncmds, pool>>
             [] op = "exit" ->
                  /\ procs' = [procs EXCEPT ![s].pc = "done", ![s].rc = o.rc]
-                 /\ UNCHANGED <<fs, tmp, clock, w, runid, locks, cmd, hist, ran, ncmds, pool>>
+                 /\ UNCHANGED <<fs, tmp, clock, w, runid, locks, cmd, hist, ran, ncmds, pool, gh>>
 
 \* the redo-ifchange a script was waiting for has ended
 ScriptResume(s) ==
@@ -520,7 +559,7 @@ ScriptResume(s) ==
        procs' = Kill([procs EXCEPT ![s] = IF rc # 0 THEN [S EXCEPT !.pc = "done", !.rc = rc, !.kid = NoPid, !.tok = 1]
                                           ELSE [S EXCEPT !.opi = S.opi + 1, !.kid = NoPid, !.tok = 1]],
                      {S.kid})
-    /\ UNCHANGED <<fs, tmp, clock, w, runid, locks, cmd, hist, ran, ncmds, pool>>
+    /\ UNCHANGED <<fs, tmp, clock, w, runid, locks, cmd, hist, ran, ncmds, pool, gh>>
 
 \* redo-unlocked (unlocked.rs): phase 1 builds the uncertain dependencies with
 \* REDO_NO_OOB; phase 2 re-decides the target itself with REDO_UNLOCKED.
@@ -534,21 +573,36 @@ UnlockedStep(u) ==
               targs == IF U.opi = 1 \/ UnlockedBug THEN U.targs ELSE <<U.t>>
           IN procs' = Spawn([procs EXCEPT ![u].kid = k, ![u].tok = 0], k,
                             SubRedo(U, u, targs, U.opi = 2, TRUE, U.tgt, U.cyc))
-    /\ UNCHANGED <<fs, tmp, clock, w, runid, locks, cmd, hist, ran, ncmds, pool>>
+    /\ UNCHANGED <<fs, tmp, clock, w, runid, locks, cmd, hist, ran, ncmds, pool, gh>>
 
 \* a script whose redo parent is gone (abandoned by an error exit) is reaped by init
 OrphanReap(s) ==
     /\ procs[s].kind \in {"script", "unlocked"} /\ procs[s].pc = "done"
     /\ ~Alive(procs[s].par)
     /\ procs' = Kill(procs, {s})
-    /\ UNCHANGED <<fs, tmp, clock, w, runid, locks, cmd, hist, ran, ncmds, pool>>
+    /\ UNCHANGED <<fs, tmp, clock, w, runid, locks, cmd, hist, ran, ncmds, pool, gh>>
 
 (***************************************************************************)
+\* one named action per atomic unit, so that TLC's coverage reports each
+DeclareA    == \E p \in DOMAIN procs : Declare(p)
+ConsiderA   == \E p \in DOMAIN procs : Consider(p)
+Pass2A      == \E p \in DOMAIN procs : Pass2(p)
+FinishA     == \E p \in DOMAIN procs : Finish(p)
+AcquireA    == \E p \in DOMAIN procs : Acquire(p)
+ReleaseA    == \E p \in DOMAIN procs : Release(p)
+ReapA       == \E p \in DOMAIN procs : \E j \in procs[p].jobs : Reap(p, j)
+RecFsA      == \E p \in DOMAIN procs : \E j \in procs[p].jobs : RecFs(p, j)
+RecCommitA  == \E p \in DOMAIN procs : \E j \in procs[p].jobs : RecCommit(p, j)
+UnlDoneA    == \E p \in DOMAIN procs : \E j \in procs[p].jobs : UnlDone(p, j)
+ScriptStepA == \E p \in DOMAIN procs : ScriptStep(p)
+ScriptResumeA == \E p \in DOMAIN procs : ScriptResume(p)
+UnlockedStepA == \E p \in DOMAIN procs : UnlockedStep(p)
+OrphanReapA == \E p \in DOMAIN procs : OrphanReap(p)
+
 ProcStep ==
-    \E p \in DOMAIN procs :
-        \/ Declare(p) \/ Consider(p) \/ Pass2(p) \/ Finish(p) \/ Acquire(p) \/ Release(p)
-        \/ \E j \in procs[p].jobs : Reap(p, j) \/ RecFs(p, j) \/ RecCommit(p, j) \/ UnlDone(p, j)
-        \/ ScriptStep(p) \/ ScriptResume(p) \/ UnlockedStep(p) \/ OrphanReap(p)
+    \/ DeclareA \/ ConsiderA \/ Pass2A \/ FinishA \/ AcquireA \/ ReleaseA
+    \/ ReapA \/ RecFsA \/ RecCommitA \/ UnlDoneA
+    \/ ScriptStepA \/ ScriptResumeA \/ UnlockedStepA \/ OrphanReapA
 
 UserStep ==
     \/ \E n \in UserFiles : UserWrite(n)
@@ -556,7 +610,11 @@ UserStep ==
     \/ \E df \in DoEdits : DoEdit(df) \/ DoRemove(df) \/ DoAdd(df)
     \/ \E c \in Cmds : StartBuild(c) \/ Query(c)
 
-Next == ProcStep \/ EndBuild \/ UserStep
+Next ==
+    \/ DeclareA \/ ConsiderA \/ Pass2A \/ FinishA \/ AcquireA \/ ReleaseA
+    \/ ReapA \/ RecFsA \/ RecCommitA \/ UnlDoneA
+    \/ ScriptStepA \/ ScriptResumeA \/ UnlockedStepA \/ OrphanReapA
+    \/ EndBuild \/ UserStep
 
 Spec == Init /\ [][Next]_vars
 
